@@ -913,6 +913,8 @@ def _dyn_into(e, c, a):
     cands = e.prog.by_key.get((h, 'From', 'from'))
     if cands:
         return e.run(cands[-1] if len(cands) == 1 else _pick_from(e, cands, v), [v], '<%s as From<%s>>::from' % (tgt, rt))
+    if h == 'Box' and 'dyn' in tgt:
+        return Opaque('box', cell=Cell(v), rt='Box')        # Box<dyn Error> from any error value
     raise Unsupported('dynamic Into<%s> for runtime type %s' % (tgt, rt))
 
 
@@ -976,6 +978,11 @@ def _dyn_to_string(e, c, a):
     if isinstance(v, (Str, StrRef)):
         from .m_str import str_bytes
         return Str(list(str_bytes(v)))
+    if isinstance(v, Int) and not (v.org is not None and v.org[0] == 'char'):
+        c_ = e.concretize(v)        # Display of an integer: decimal digits (a symbolic value forks over its feasible values)
+        if v.sg and c_ >= 1 << (v.bits - 1):
+            c_ -= 1 << v.bits
+        return mk_str(str(c_))
     return mk_str('<%s>' % (getattr(v, 'ty', None) or type(v).__name__))      # Display of an error value: text abstracted (formatting is not the subject)
 
 
